@@ -69,13 +69,32 @@ def kkt_exact(A, b, z, eps_w, eps_zw):
     return ok, float(worst_w), float(worst_zw), float(sum(x * x for x in r))
 
 
-def check_case(res, spec, method, allow_neg, exprs, label, consistent, limit=None):
+def check_case(res, spec, method, allow_neg, exprs, label, consistent, limit=None, velocity_first=0):
+    """velocity_first: the tissue is the first frame of a two-frame movie and, before the static solve that is judged, the same assembled
+    matrix is used for a velocity-based solve (1) or the system velocities are asked for (2) - "whichever solver path is taken", the static
+    solve minimises the residual of the static equations"""
     fr = impl.frame(spec)
-    f = impl.forsys_of({0: fr})
+    if velocity_first:
+        P = np.array([[x, y] for _, x, y in spec["vertices"]], dtype=float)
+        ext = float(max(P[:, 0].max() - P[:, 0].min(), P[:, 1].max() - P[:, 1].min()))
+        spec1 = dict(spec, vertices=[[i, x + 0.004 * ext * math.sin(1.7 * k), y + 0.004 * ext * math.cos(2.3 * k)] for k, (i, x, y) in enumerate(spec["vertices"])])
+        f = impl.forsys_of({0: fr, 1: impl.frame(spec1, 1, 1.0)})
+    else:
+        f = impl.forsys_of({0: fr})
     replay = {"spec": {k: spec[k] for k in ("vertices", "edges", "cells")}, "method": method, "allow_negatives": allow_neg,
-              "label": label, "consistent": consistent, "limit": limit}
+              "label": label, "consistent": consistent, "limit": limit, "velocity_first": velocity_first}
     with impl.quiet():
         f.build_force_matrix(when=0, angle_limit=np.inf if limit is None else limit)
+    if velocity_first:
+        try:
+            with impl.quiet():
+                if velocity_first == 1:
+                    f.solve_stress(when=0, b_matrix="velocity", allow_negatives=False)
+                else:
+                    f.get_system_velocity_per_frame()
+        except Exception:  # noqa  (what the velocity solve itself does is C03 / C13's subject)
+            pass
+        res.count("static solve after a velocity assembly on the same object")
     fm = f.force_matrices[0]
     M = np.array(fm.matrix, dtype=float)
     ncol = M.shape[1]
@@ -249,6 +268,16 @@ def run(res, tier, seed):
         elif "noisy" in label:
             # the restricted system of an angle limit (several, often neighbouring, interfaces excluded)
             check_case(res, spec, None, False, exprs, label + "/limited", False, limit=float(rng.uniform(0.72, 0.85)) * math.pi)
+    # the static solve of a frame whose matrix served a velocity-based solve (or the system velocities) just before
+    done = 0
+    for spec, label, consistent in cases(np.random.default_rng(seed + 101), "quick"):
+        if "rosette" in label or len(spec["cells"]) < 6:
+            continue
+        check_case(res, spec, [None, "lsq_linear" if consistent else None, "lsq"][done % 3], False, exprs, label + "/after-velocity", consistent,
+                   velocity_first=1 + done % 2)
+        done += 1
+        if done >= (3 if tier == "quick" else 12):
+            break
     # the broken back-end (known finding)
     spec = gen.voronoi_tissue(rng, n=20, npts=2)
     check_case(res, spec, "fix_stress", True, exprs, "fix_stress", True)
@@ -279,7 +308,7 @@ def replay(res, obj):
     if "case" in inp:
         inp = inp["case"]
     sink = []
-    check_case(res, inp["spec"], inp["method"], inp["allow_negatives"], sink, "replay", inp.get("consistent", False), limit=inp.get("limit"))
+    check_case(res, inp["spec"], inp["method"], inp["allow_negatives"], sink, "replay", inp.get("consistent", False), limit=inp.get("limit"), velocity_first=inp.get("velocity_first", 0))
     bools, _ = C.coq_eval_bools("C05r", IMPORTS, [e for e, _, _ in sink], chunk=3)
     for (e, rp, kind), b in zip(sink, bools):
         if b is not True:
